@@ -343,6 +343,13 @@ impl Server {
         .layer(Extension(index))
         .layer(Extension(server_config.clone()))
         .layer(Extension(settings.clone()))
+        .layer(
+          CorsLayer::new()
+            .allow_methods([http::Method::GET, http::Method::POST])
+            .allow_headers([http::header::CONTENT_TYPE])
+            .allow_origin(Any),
+        )
+        .layer(CompressionLayer::new())
         .layer(SetResponseHeaderLayer::if_not_present(
           header::CONTENT_SECURITY_POLICY,
           HeaderValue::from_static("default-src 'self'"),
@@ -351,13 +358,6 @@ impl Server {
           header::STRICT_TRANSPORT_SECURITY,
           HeaderValue::from_static("max-age=31536000; includeSubDomains; preload"),
         ))
-        .layer(
-          CorsLayer::new()
-            .allow_methods([http::Method::GET, http::Method::POST])
-            .allow_headers([http::header::CONTENT_TYPE])
-            .allow_origin(Any),
-        )
-        .layer(CompressionLayer::new())
         .with_state(server_config.clone());
 
       let router = if let Some((username, password)) = settings.credentials() {
